@@ -109,11 +109,6 @@ Qed.
 Lemma no_mut_draw_if_ids_l l : no_mut (draw_if_ids l).
 Proof. induction l; simpl; nm. apply IHl. Qed.
 
-Lemma bind_err_cases {A B} (m : M A) (k : A -> M B) s s' e :
-  bind m k s = (s', Err e) ->
-  m s = (s', Err e) \/ exists s1 a, m s = (s1, Ok a) /\ k a s1 = (s', Err e).
-Proof. unfold bind. destruct (m s) as [s1 [a|e1]]; intro H; [right; eauto|left; inversion H; reflexivity]. Qed.
-
 Lemma nodupN_cons x l : nodupN (x :: l) = true -> ~ In x l /\ nodupN l = true.
 Proof.
   simpl. intro H. apply andb_true_iff in H as [H1 H2]. split; auto.
